@@ -54,6 +54,23 @@ SPEC = {
  "C14c": ("itest", "octo-squirrel", "c14_vmess_domain_literal", None, False),
  "C15c": ("proj", None, ["run", "--offline"], None, True),
  "C16c": ("itest", "octo-squirrel", "c16_identity_key_chain", None, False),
+ # round 4
+ "C01d": ("proj", None, ["run", "--offline"], None, True),
+ "C12d": ("itest", "octo-squirrel", "c12_tcp_directions", None, False),
+ "C15d": ("itest", "octo-squirrel-server", "c15_upload_tail", None, True),
+ "C02d": ("itest", "octo-squirrel-server", "udp_reply_integrity", None, True),
+ "C03d": ("itest", "octo-squirrel", "c03_ss2022_chunk_length", None, False),
+ "C04d": ("itest", "octo-squirrel", "c04_segmentation", None, False),
+ "C05d": ("itest", "octo-squirrel", "c05_response_binding", None, False),
+ "C06d": ("itest", "octo-squirrel-server", "vmess_two_inbounds", None, True),
+ "C07d": ("itest", "octo-squirrel-server", "trojan_key_field", None, True),
+ "C08d": ("proj", None, ["run", "--offline"], None, True),
+ "C09d": ("itest", "octo-squirrel-server", "c09_listeners_independent", None, True),
+ "C10d": ("itest", "octo-squirrel", "c10_response_binding", None, False),
+ "C11d": ("itest", "octo-squirrel-server", "c11_udp_packet_id_once", None, True),
+ "C13d": ("proj", None, ["test", "--offline"], None, False),
+ "C14d": ("itest", "octo-squirrel", "c14_vmess_address_roundtrip", None, False),
+ "C16d": ("proj", None, ["run", "--offline"], None, True),
 }
 
 
@@ -87,7 +104,7 @@ def main():
     for idn in [a for a in sys.argv[1:] if not a.startswith('--')]:
         wt, out = f"/tmp/wt/{idn}", f"/tmp/wt/{idn}-out"
         patch = os.path.join(out, "patch.diff")
-        env = dict(os.environ, CARGO_TARGET_DIR=f"/tmp/wt/{idn}/target", CARGO_NET_OFFLINE="true", RUST_BACKTRACE="0")
+        env = dict(os.environ, CARGO_TARGET_DIR=f"/tmp/wt/{idn}/target", CARGO_NET_OFFLINE="true", RUST_BACKTRACE="0", CARGO_PROFILE_DEV_DEBUG="0", CARGO_PROFILE_TEST_DEBUG="0", CARGO_INCREMENTAL="0")
         res = {"id": idn}
         # make sure the patch is applied
         subprocess.run(["git", "checkout", "--", "."], cwd=wt)
